@@ -359,6 +359,12 @@ def families() -> dict[str, dict]:
                                 S("J", ["B", "C"], join="OR")]}
     f["or_split_none"] = {"stages": [S("A", split="OR", conds={"B": "false", "C": "false", "D": "false"}), S("B", ["A"]), S("C", ["A"]),
                                      S("D", ["A"], tasks=[["ok"], ["ok"]])]}
+    # a condition that cannot be evaluated (ordering comparison with a key nobody produced: ExpressionError) skips its
+    # branch - the branch must not be left neither started nor skipped
+    f["or_split_error"] = {"stages": [S("A", split="OR", conds={"B": "true", "C": "nokey > 50"}), S("B", ["A"]), S("C", ["A"]),
+                                      S("D", ["B", "C"])]}
+    f["or_split_error_all"] = {"stages": [S("A", split="OR", conds={"B": "nokey > 50", "C": "len(nokey) > 1"}), S("B", ["A"]), S("C", ["A"]),
+                                          S("J", ["B", "C"], join="OR")]}
     f["first_of_leaf"] = {"stages": [S("A"), S("B", ["A"]), S("C", ["A"], tasks=[["ok"], ["ok"], ["ok"]]),
                                      S("J", ["B", "C"], join="DISCRIMINATOR")]}
     f["taskless"] = {"stages": [S("A", tasks=[]), S("B", ["A"])]}
